@@ -197,23 +197,36 @@ func newStream(send func(string) error, next func() ([]byte, error), closeFn fun
 }
 
 func (s *c19stream) roundTrip(text string, _ int, _ string) ([]byte, error) {
-	if err := s.send(text); err != nil {
-		return nil, fmt.Errorf("send: %v", err)
-	}
+	// The write runs beside the wait for the response: on a net.Pipe a write returns only when the peer has
+	// consumed every byte, and a server that answers a malformed message and closes the connection may
+	// never read the trailing newline; the response (queued by the reader before it sees EOF) is what counts.
+	errc := make(chan error, 1)
+	go func() { errc <- s.send(text) }()
+	var sendErr error
 	t := time.NewTimer(c19timeout)
 	defer t.Stop()
-	select {
-	case d := <-s.resp:
-		return d, nil
-	case <-s.closed:
-		select { // a response may have been queued just before the close
+	for {
+		select {
 		case d := <-s.resp:
 			return d, nil
-		default:
+		case <-s.closed:
+			select { // a response may have been queued just before the close
+			case d := <-s.resp:
+				return d, nil
+			default:
+			}
+			if sendErr != nil {
+				return nil, fmt.Errorf("send: %v", sendErr)
+			}
+			return nil, errors.New("connection closed without response")
+		case err := <-errc:
+			sendErr, errc = err, nil
+		case <-t.C:
+			if sendErr != nil {
+				return nil, fmt.Errorf("send: %v", sendErr)
+			}
+			return nil, errors.New("timeout waiting for response")
 		}
-		return nil, errors.New("connection closed without response")
-	case <-t.C:
-		return nil, errors.New("timeout waiting for response")
 	}
 }
 
@@ -586,10 +599,10 @@ func mentions(e c19elem, key string) bool {
 	return false
 }
 
-// wellFormed: "otherwise well-formed" — an object with usable member types, a valid id and a method name of
-// one of the accepted forms (service_method, *_subscribe with a subscription name, *_unsubscribe)
-func wellFormed(e c19elem) bool {
-	if e.Shape != "o" || e.TyErr || e.Id != "k" || e.Method == nil {
+// parses: the element does not make the server refuse the message as a whole — a JSON object with usable
+// member types, a valid id, and (for *_subscribe) a subscription name
+func parses(e c19elem) bool {
+	if e.Shape != "o" || e.TyErr || e.Id != "k" {
 		return false
 	}
 	for _, k := range e.Keys {
@@ -597,11 +610,20 @@ func wellFormed(e c19elem) bool {
 			return false
 		}
 	}
-	m := *e.Method
-	switch {
-	case strings.HasSuffix(m, "_subscribe"):
+	if e.Method != nil && strings.HasSuffix(*e.Method, "_subscribe") {
 		return e.Params.Kind == "arr" && len(e.Params.Args) > 0 && e.Params.Args[0].K == "s"
-	case strings.HasSuffix(m, "_unsubscribe"):
+	}
+	return true
+}
+
+// wellFormed: "otherwise well-formed" — parses, and the method name has one of the accepted forms
+// (service_method, *_subscribe, *_unsubscribe)
+func wellFormed(e c19elem) bool {
+	if !parses(e) || e.Method == nil {
+		return false
+	}
+	m := *e.Method
+	if strings.HasSuffix(m, "_subscribe") || strings.HasSuffix(m, "_unsubscribe") {
 		return true
 	}
 	return strings.Count(m, "_") == 1
@@ -645,10 +667,12 @@ func c19oracle(cs c19case, mi int, m c19msg, o c19obs) []c19fail {
 	nCarry := 0
 	allowed := map[string]int{}
 	allowedUnsub := map[int]bool{}
-	allWF := m.Kind != "garbage"
+	// does the message as a whole have to be accepted?  batch: every element parses; single: it is well-formed
+	// (a single request whose method name does not split is refused at message level, json.go:208)
+	allOK := m.Kind != "garbage"
 	for _, e := range elems {
-		if !wellFormed(e) {
-			allWF = false
+		if !parses(e) || (m.Kind == "single" && !wellFormed(e)) {
+			allOK = false
 		}
 		if carries(e, cs.ApiKey) {
 			nCarry++
@@ -686,8 +710,8 @@ func c19oracle(cs c19case, mi int, m c19msg, o c19obs) []c19fail {
 	// (3) every request without the key is answered with an error
 	switch o.kind {
 	case "msgerr":
-		if allWF {
-			add("wellformed-refused-whole", "all elements are well-formed but the message was refused as a whole (code %d)", o.codes[0])
+		if allOK {
+			add("wellformed-refused-whole", "every element is usable but the message was refused as a whole (code %d)", o.codes[0])
 		}
 	case "one", "many":
 		if (o.kind == "one") != (m.Kind == "single") || len(o.codes) != len(elems) {
@@ -699,14 +723,14 @@ func c19oracle(cs c19case, mi int, m c19msg, o c19obs) []c19fail {
 			if !c && o.codes[i] == 0 {
 				add("unkeyed-not-error", "element %d does not carry the key (some key member has the configured value: %v) and was answered with a success response", i, mentions(e, cs.ApiKey))
 			}
-			if !c && allWF && o.codes[i] != 0 && o.codes[i] != -32800 {
+			if !c && wellFormed(e) && o.codes[i] != 0 && o.codes[i] != -32800 {
 				add("wellformed-wrong-code", "element %d is well-formed without the key: error %d instead of -32800", i, o.codes[i])
 			}
 			// (4) requests that carry the key are still served
-			if c && allWF && o.codes[i] == -32800 {
+			if c && o.codes[i] == -32800 {
 				add("keyed-refused", "element %d carries the key and was answered with the invalid-key error", i)
 			}
-			if c && allWF {
+			if c && wellFormed(e) {
 				if exp := c19expectServed(cs, e); exp != "" {
 					found := false
 					for _, entry := range o.inv {
